@@ -17,6 +17,13 @@ def gen_cases(seed, tier):
         for n in (250, 253, 255, 256, 65535, 65536):
             add(comp, 0, [("y", "mem", "g:%d:%d:r" % (n, n))])
     add("none", 0, [])
+    # tiny compressed clusters of mildly redundant data: for these the compressed size meets the plain size (text followed
+    # by spaces: the gain just balances the frame overhead); how many of them really have stored size = plain size is
+    # measured on every run (coverage: clusters_stored_size_equals_plain_size)
+    words = b"the quick brown fox jumps over the lazy dog and runs away from here to there "
+    for comp in (("zstd:3", "zstd:1") if tier == "quick" else ("zstd:3", "zstd:1", "zstd:5", "zstd:19", "lz4:3", "lzma:2")):
+        for L in (range(24, 84, 3) if tier == "quick" else range(20, 120)):
+            add(comp, 0, [("y", "mem", "x:" + (words[:L - 16] + b" " * 16).hex())])
     # the deduplicating adder hashes contents of one cluster size (4 MiB) and more through another path:
     # first occurrences around that size, every hint, memory and file sources, then their duplicates
     for comp in (["zstd:1"] if tier == "quick" else ["zstd:1", "lz4:3"]):
@@ -80,6 +87,8 @@ def run(tier, seed, replay=None):
         for l in lens:
             b = 0 if l == 0 else len(str(l))
             hist[b] = hist.get(b, 0) + 1
+    res.cov["clusters_stored_size_equals_plain_size"] = sum(
+        1 for c in cases for l in M.get(c["id"], []) if l.startswith("stored ") and l.split(" ")[2] == l.split(" ")[3])
     res.cov.update({
         "evaluations": len(cases), "distinct_nontrivial": len(nontrivial),
         "rule": "insertion sequences (hints x sources mem/file/file-range x 8 compression settings x dedup) incl. corpus of width-boundary cases, "
